@@ -434,11 +434,70 @@ def read_corruption(ctx):
     ctx.cov["read_corruption_cases"] = len(cases)
 
 
+def purged_tail_disks(ctx):
+    """directories in which some chunk file ENDS with every entry written so far purged (the purge
+    was issued while that chunk was the open one, so the file stays), followed by chunks with
+    live entries: all alignments of the purge record within its chunk"""
+    rnd = ctx.rnd
+    cases = []
+    for recs in (2, 3, 4) + ((5, 6) if ctx.thorough() else ()):
+        for j in range(recs):
+            n0 = rnd.randint(1, 4)
+            ops = ["A 1 %d x%02x" % (i, 0x41 + i) for i in range(n0)]
+            ops.append(rnd.choice(["P 1 %d" % (n0 - 1), "P 2 %d" % (n0 + 1)]))
+            nxt = n0 if ops[-1].startswith("P 1") else n0 + 2
+            ops += ["V %d 1" % (10 + i) for i in range(j)]
+            ops += ["A 2 %d x%02x" % (nxt + i, 0x61 + i) for i in range(2 * recs + 1)]
+            cases.append("SEQ 100000 1073741824 %d 1073741824 1 64 | %s" % (recs, " ; ".join(gen.sync_ops(ops) + ["F 1", "I", "K"])))
+    impl = C.run_impl(cases, ctx.wd, "purgedtail")
+    model = C.run_model(cases, ctx.wd, "purgedtail")
+    core.compare(ctx, "bytes(b)-purged-tail-images", cases, impl, model)
+    out = []
+    for a in impl:
+        f = p_seq.fields(a)
+        if f[-1].startswith("disk "):
+            out.append(parse_disk(f[-1]))
+    return out
+
+
+def missing_middle(ctx, disks):
+    """every middle chunk file of every directory removed: open must refuse and touch nothing
+    but (possibly) the newest file"""
+    rnd = ctx.rnd
+    cases, meta = [], []
+    for disk in disks:
+        for fi in range(1, len(disk) - 1):
+            cfg = "100000 1073741824 4 1073741824 %d %d" % (rnd.choice([1, 1, 0]), rnd.choice(gen.CFG_RBUF))
+            d2 = disk[:fi] + disk[fi + 1:]
+            cases.append(img_case(cfg, d2, "G ; R 0 100000"))
+            meta.append(d2)
+    if not cases:
+        return
+    impl = C.run_impl(cases, ctx.wd, "missingmid")
+    model = C.run_model(cases, ctx.wd, "missingmid")
+    core.compare(ctx, "recover-missing-middle-chunk", cases, impl, model)
+    bad = 0
+    for c, d2, a in zip(cases, meta, impl):
+        f = p_seq.fields(a)
+        why = None
+        if not f[0].startswith("openerr"):
+            why = "a middle chunk file is missing but open answered " + f[0]
+        elif parse_disk(f[1])[:-1] != d2[:-1]:
+            why = "a refused open modified a chunk file other than the newest"
+        if why:
+            bad += 1
+            if bad <= 3:
+                ctx.fail("oracle", "C09 oracle: " + why, dict(kind="image", case=c[:8000], mutation=dict(kind="missing"), observed=a[:600]))
+    ctx.count("middle_chunk_removed_all_images", len(cases))
+    ctx.k_checks["oracle-missing-middle-chunk-refused"] = (bad == 0, len(cases))
+
+
 def run_C09(ctx):
     proof = core.proof_stage("C09")
     core.builds()
     rnd = ctx.rnd
     imgs = [im for im in make_images(ctx, ctx.scale(12, 80), ctx.scale(12, 30)) if len(im["disk"]) >= 2]
+    missing_middle(ctx, [im["disk"] for im in imgs] + purged_tail_disks(ctx))
     imgs.sort(key=lambda im: 0 if im.get("leftover") else 1)        # left-over images first: at least one is swept
     imgs = imgs[: ctx.scale(3, 24)]
     ncases_total, distinct, samples = 0, set(), []
